@@ -398,17 +398,36 @@ func streamC06(r *Rand, n int, o *Out) {
 		// the same base value is reused for every reference: a resolution must not leave anything behind in it
 		shared, serr := url.Parse(b)
 		toks := "P " + defaultCfg.Tok + " " + xs(b)
+		// … and a base value whose parameter list has been materialised by a read-only use (Has): resolving against it must
+		// give what resolving against the base string gives (the list is a cache of the query, not a second source of truth)
+		used, uerr := url.Parse(b)
+		utoks := "P " + defaultCfg.Tok + " " + xs(b) + " ; G 0"
+		if uerr == nil {
+			used.SearchParams().Has("x")
+		}
+		h2 := &Hist{}
+		k2 := h2.ParsePkg(b)
+		if k2 >= 0 {
+			h2.Grab(k2)
+		}
 		for _, ref := range relPool {
 			checkC06(b, ref)
 			if serr == nil {
 				toks += " ; R 0 " + xs(ref)
 				checkC06On(shared, b, ref, toks)
 			}
+			if uerr == nil {
+				checkC06On(used, b, ref, utoks+" ; R 0 "+xs(ref))
+			}
 			if k >= 0 {
 				h.Resolve(k, ref)
 			}
+			if k2 >= 0 && (ref == "" || strings.HasPrefix(ref, "#") || strings.HasPrefix(ref, "?") || len(ref) < 4) {
+				h2.Resolve(k2, ref)
+			}
 		}
 		o.EmitHist("x", h)
+		o.EmitHist("x", h2)
 	}
 	for i := 0; i < n; i++ {
 		rr := r.Fork()
@@ -418,6 +437,12 @@ func streamC06(r *Rand, n int, o *Out) {
 			ref = rr.Pick([]string{"#", "?", "", " ", "#" + rr.Pick(fragPool), "?" + rr.Pick(queryPool), "?" + rr.Pick(queryPool) + "#" + rr.Pick(fragPool), "\t#x", " ?y "})
 		}
 		checkC06(base, ref)
+		if rr.P(30) {
+			if ub, err := url.Parse(base); err == nil {
+				ub.SearchParams().Has("x")
+				checkC06On(ub, base, ref, "P "+defaultCfg.Tok+" "+xs(base)+" ; G 0 ; R 0 "+xs(ref))
+			}
+		}
 		h := &Hist{}
 		h.ParseRefPkg(base, ref)
 		h.ParseRef(defaultCfg, base, ref)
@@ -1441,7 +1466,12 @@ func streamC15(r *Rand, n int, o *Out) {
 	for _, t := range errCatalogue {
 		documented[t] = true
 	}
-	for i := 0; i < n; i++ {
+	// one input per non-fatal error site that the random part reaches only rarely (measured with tools/coverage.sh):
+	// the early returns under fail-on-validation-error
+	fixed := []string{"file:/\\x", "file:\\\\h/x", "file://C:/x", "file://c|/y", "file:/\\C|/x", "http:\\\\h\\p", "http://u:p@h:/x", "http://h:80\\x", "sc://h\\x?q#f",
+		"http://h/%zz?%zz#%zz", "http://h/a b?a b#a b", "ht\ttp://h/", " http://h/ ", "http://1.2.3.4./", "http://0x1.0x2/", "http://[::1.2.3.4]/", "http:///h", "http:/h", "http:h",
+		"REF file:///a/b /\\x", "REF file:///a/b \\\\h/x", "REF file://h/a //C:/x", "REF file:///C:/a /", "REF http://h/a \\\\g/x", "REF http://h/a /\\x", "REF sc://h/a ?q#f"}
+	for i := 0; i < n+len(fixed); i++ {
 		rr := r.Fork()
 		in := genInput(rr)
 		base := ""
@@ -1450,6 +1480,13 @@ func streamC15(r *Rand, n int, o *Out) {
 		}
 		if rr.P(15) {
 			in = "http://" + rr.Pick(weirdHosts) + "/"
+		}
+		if i >= n {
+			in, base = fixed[i-n], ""
+			if strings.HasPrefix(in, "REF ") { // "REF <base> <reference>"
+				t := strings.SplitN(in, " ", 3)
+				base, in = t[1], t[2]
+			}
 		}
 		h := &Hist{}
 		type res struct {
